@@ -547,6 +547,10 @@ StructAlphabet ==      \* C16: .repeat bodies (own '.', impure operators, hoiste
 StructDirAlphabet ==   \* C16: the directory- and command-line-related part of StructAlphabet, small enough for all 2-file programs
   { [k |-> "insert", len |-> 7, nm |-> "d"], [k |-> "insert", len |-> 7], Inc(1), Inc(3), [k |-> "linkinc", f |-> 1], [k |-> "linkinc", f |-> 3],
     I0("nop"), By(<<Num(5)>>), Rep(2, << [k |-> "insert", len |-> 7, nm |-> "d"] >>), Rep(2, << Inc(3) >>), Inc(4) }
+StructLateAlphabet ==  \* C16: blocks whose count is defined further down (the body is compiled late, while its own size is asked for) that refer to labels behind them
+  { RepC(2, "cnt", << I1("br", A) >>), RepC(2, "cnt", << I1("br", B), W(<<A>>) >>), RepC(1, "on", << I1("sob", A) >>), RepC(0, "off", << I1("br", B) >>),
+    RepC(1, "on", << I1("movr", B), By(<<Num(1)>>), [k |-> "even"] >>), RepC(2, "cnt", << I1("br", Bin("+", Dot, Num(4))), I1("clra", A) >>),
+    Const("cnt", Num(2)), Const("on", Num(1)), Const("off", Num(0)), Lab("a"), Lab("b"), I0("nop"), W(<<B>>) }
 StructBigAlphabet ==   \* C16: large repeat counts (the property's n <= 40), kept out of the exhaustive alphabet for size
   { Rep(40, << By(<< Bin("-", Dot, A) >>) >>), Rep(17, << W(<< Dot >>), I1("movr", A) >>), Rep(33, << Rep(2, << [k |-> "even"], By(<< Num(1) >>) >>) >>),
     Rep(33, << Inc(1) >>), Rep(31, << Inc(2) >>),      \* one file included more than thirty times (a '.once' file contributes once, another one every time)
